@@ -114,6 +114,9 @@ def gen_scenario(rng, ctype, r, c, F, sparse=0):
         # a third of the scenarios give some standards as vector parameters
         # on their own frequency grid (rational law in frequency)
         sc.offgrid = rng.random() < 0.33
+        # vector standards are sometimes looked at (evaluated high in the
+        # band) before the calibration uses them
+        sc.prequery = rng.random() < 0.4
         sc.sufficient_recipe(extras=int(rng.integers(0, 4)))
         sc.choose_entries()
         ok, kappa = sc.well_determined(KAPPA_MAX)
